@@ -380,12 +380,16 @@ fn mutate_graph<RVB: RvbUpdater + ?Sized, VS, EN: EdgeNavigator + ?Sized, R: Rng
         .for_each(|v| {
             edges.bonds_for_var(v).iter().cloned().for_each(|b| {
                 let ov = edges.other_var_for_bond(v, b).unwrap();
-                if !cluster_state[var_to_subvar(ov).unwrap()] {
-                    let (va, vb) = edges.vars_for_bond(b);
-                    let subva = var_to_subvar(va).unwrap();
-                    let subvb = var_to_subvar(vb).unwrap();
-                    let w = diagonal_hamiltonian(b, substate[subva], substate[subvb]);
-                    bonds.insert(b, w);
+                // A neighbour across a bond of zero magnitude may lie outside the known region:
+                // such a bond has weight zero and can never be drawn, skip it.
+                if let Some(o_subvar) = var_to_subvar(ov) {
+                    if !cluster_state[o_subvar] {
+                        let (va, vb) = edges.vars_for_bond(b);
+                        let subva = var_to_subvar(va).unwrap();
+                        let subvb = var_to_subvar(vb).unwrap();
+                        let w = diagonal_hamiltonian(b, substate[subva], substate[subvb]);
+                        bonds.insert(b, w);
+                    }
                 }
             })
         });
@@ -645,11 +649,14 @@ fn set_initial_bonds<F, VS, EN>(
         .for_each(|(v, subvar)| {
             edges.bonds_for_var(v).iter().cloned().for_each(|b| {
                 let ov = edges.other_var_for_bond(v, b).unwrap();
-                let o_subvar = var_to_subvar(ov).unwrap();
-                if !cluster_state[o_subvar] {
-                    let (wbef, waft) = ws_for_flip(b, subvar, substate);
-                    bonds_before.insert(b, wbef);
-                    bonds_after.insert(b, waft);
+                // A neighbour across a bond of zero magnitude may lie outside the known region:
+                // such a bond contributes weight zero before and after the flip, skip it.
+                if let Some(o_subvar) = var_to_subvar(ov) {
+                    if !cluster_state[o_subvar] {
+                        let (wbef, waft) = ws_for_flip(b, subvar, substate);
+                        bonds_before.insert(b, wbef);
+                        bonds_after.insert(b, waft);
+                    }
                 }
             })
         });
@@ -1108,6 +1115,11 @@ fn build_cluster<EN, CBM, R>(
         // Add neighbors to what we just added.
         edges.bonds_for_var(v).iter().for_each(|b| {
             let weight = edges.bond_mag(*b);
+            // A bond of zero magnitude does not connect the variables: growing across it would
+            // only add entries that can never be drawn (and a boundary of total weight zero).
+            if weight <= 0.0 {
+                return;
+            }
             let ov = edges.other_var_for_bond(v, *b).unwrap();
             if var_lengths[ov] == 0 {
                 cbm.push_adjacent(ov, None, Some(weight));
